@@ -1750,3 +1750,210 @@ Proof.
   exists [[10; 11; 12]], [[20; 21; 22]]. split; [repeat constructor|].
   vm_compute. discriminate.
 Qed.
+
+(* ------------------------------------------------------------------ *)
+(* partial_transpose *)
+
+Lemma choose_length : forall mask A B, length A = length mask -> length B = length mask ->
+  length (choose mask A B) = length mask.
+Proof.
+  induction mask as [|m mask IH]; intros A B HA HB; destruct A, B; simpl in *; try discriminate;
+    [reflexivity|]. rewrite IH; lia.
+Qed.
+
+Lemma nth_choose : forall mask A B a, length A = length mask -> length B = length mask ->
+  nth a (choose mask A B) 0 = if nth a mask false then nth a B 0 else nth a A 0.
+Proof.
+  induction mask as [|m mask IH]; intros A B a HA HB; destruct A as [|x A], B as [|y B];
+    simpl in *; try discriminate.
+  - destruct a; reflexivity.
+  - destruct a as [|a]; [destruct m; reflexivity|]. apply IH; lia.
+Qed.
+
+Lemma valid_choose : forall mask dims A B, valid dims A -> valid dims B ->
+  length mask = length dims -> valid dims (choose mask A B).
+Proof.
+  intros mask dims A B HA. revert mask B.
+  induction HA as [|x d A dims Hx _ IH]; intros mask B HB HL; inversion HB; subst;
+    destruct mask as [|m mask]; simpl in HL; try discriminate; simpl; [constructor|].
+  constructor; [destruct m; assumption|]. apply IH; [assumption|lia].
+Qed.
+
+Lemma choose_involutive : forall mask A B, length A = length mask -> length B = length mask ->
+  choose mask (choose mask A B) (choose mask B A) = A /\
+  choose mask (choose mask B A) (choose mask A B) = B.
+Proof.
+  induction mask as [|m mask IH]; intros A B HA HB; destruct A as [|x A], B as [|y B];
+    simpl in *; try discriminate; [split; reflexivity|].
+  destruct (IH A B) as [E1 E2]; try lia. rewrite E1, E2. destruct m; split; reflexivity.
+Qed.
+
+Lemma choose_same : forall mask d, length d = length mask -> choose mask d d = d.
+Proof.
+  induction mask as [|m mask IH]; intros d H; destruct d; simpl in *; try discriminate;
+    [reflexivity|]. rewrite IH by lia. destruct m; reflexivity.
+Qed.
+
+(* the axis permutation of the dense method exchanges the masked row and
+   column digits *)
+Lemma gather_pt_idx : forall mask A B, length A = length mask -> length B = length mask ->
+  gather (pt_idx mask) (A ++ B) = choose mask A B ++ choose mask B A.
+Proof.
+  intros mask A B HA HB. unfold pt_idx. cbv zeta. set (n := length mask).
+  set (f1 := fun k => if nth k mask false then n + k else k).
+  set (f2 := fun k => if nth k mask false then k else n + k).
+  apply nth_ext with (d := 0) (d' := 0).
+  - rewrite gather_length. rewrite !app_length. rewrite !map_length. rewrite seq_length.
+    rewrite !choose_length by assumption. reflexivity.
+  - intros a Ha. rewrite gather_length, app_length, !map_length, seq_length in Ha. fold n in Ha.
+    rewrite gather_nth by (rewrite app_length, !map_length, seq_length; exact Ha).
+    destruct (Nat.lt_ge_cases a n) as [L|L].
+    + rewrite (app_nth1 (map _ _)) by (rewrite map_length, seq_length; exact L).
+      rewrite (nth_indep (map f1 (seq 0 n)) 0 (f1 0))
+        by (rewrite map_length, seq_length; exact L).
+      rewrite map_nth, seq_nth by exact L. unfold f1. simpl.
+      rewrite (app_nth1 (choose mask A B)) by (rewrite choose_length; assumption).
+      rewrite nth_choose by assumption.
+      destruct (nth a mask false).
+      * replace (n + a) with (length A + a) by lia. apply app_nth2_plus.
+      * apply app_nth1. lia.
+    + rewrite (app_nth2 (map _ _)) by (rewrite map_length, seq_length; exact L).
+      rewrite map_length, seq_length.
+      assert (L2 : a - n < n) by lia.
+      rewrite (nth_indep (map f2 (seq 0 n)) 0 (f2 0))
+        by (rewrite map_length, seq_length; exact L2).
+      rewrite map_nth, seq_nth by exact L2. unfold f2. simpl.
+      rewrite (app_nth2 (choose mask A B)) by (rewrite choose_length; try assumption; lia).
+      rewrite choose_length by assumption. fold n.
+      rewrite nth_choose by assumption.
+      destruct (nth (a - n) mask false).
+      * apply app_nth1. lia.
+      * replace (n + (a - n)) with (length A + (a - n)) by lia. apply app_nth2_plus.
+Qed.
+
+Lemma undigits_app : forall a b xs ys, length a = length xs ->
+  undigits (a ++ b) (xs ++ ys) = undigits a xs * prod b + undigits b ys.
+Proof.
+  induction a as [|d a IH]; intros b xs ys HL; destruct xs as [|x xs]; simpl in HL; try discriminate.
+  - simpl. lia.
+  - simpl. rewrite IH by lia. rewrite prod_app. lia.
+Qed.
+
+Lemma valid_app : forall a b xs ys, valid a xs -> valid b ys -> valid (a ++ b) (xs ++ ys).
+Proof. intros. apply Forall2_app; assumption. Qed.
+
+Section PartialTranspose.
+  Variable dims : list nat.
+  Variable mask : list bool.
+  Hypothesis Hpos : allpos dims.
+  Hypothesis Hlen : length mask = length dims.
+
+  Let N := prod dims.
+
+  (* both methods, on digit lists *)
+  Lemma pt_sparse_on_digits : forall A B, valid dims A -> valid dims B ->
+    pt_sparse_index dims mask (undigits dims A) (undigits dims B) =
+    (undigits dims (choose mask A B), undigits dims (choose mask B A)).
+  Proof.
+    intros A B HA HB. unfold pt_sparse_index.
+    rewrite !digits_undigits by assumption. reflexivity.
+  Qed.
+
+  Lemma pt_dense_on_digits : forall A B, valid dims A -> valid dims B ->
+    pt_dense_index dims mask (undigits dims A * N + undigits dims B) =
+    undigits dims (choose mask A B) * N + undigits dims (choose mask B A).
+  Proof.
+    intros A B HA HB. unfold pt_dense_index, N.
+    pose proof (valid_length _ _ HA) as LA. pose proof (valid_length _ _ HB) as LB.
+    rewrite <- (undigits_app dims dims A B) by (symmetry; exact LA).
+    rewrite digits_undigits by (apply valid_app; assumption).
+    rewrite !gather_pt_idx by congruence.
+    rewrite choose_same by congruence.
+    apply undigits_app. rewrite choose_length; congruence.
+  Qed.
+
+  (* the dense (reshape/transpose) and sparse (index arithmetic) methods put
+     every entry at the same place *)
+  Theorem pt_methods_agree : forall m n, m < N -> n < N ->
+    pt_dense_index dims mask (m * N + n) =
+    fst (pt_sparse_index dims mask m n) * N + snd (pt_sparse_index dims mask m n).
+  Proof.
+    intros m n Hm Hn.
+    pose proof (digits_valid dims m Hpos Hm) as VA. pose proof (digits_valid dims n Hpos Hn) as VB.
+    pose proof (pt_dense_on_digits _ _ VA VB) as D.
+    pose proof (pt_sparse_on_digits _ _ VA VB) as S.
+    rewrite (undigits_digits dims m Hpos Hm), (undigits_digits dims n Hpos Hn) in D, S.
+    rewrite D, S. reflexivity.
+  Qed.
+
+  (* partial transposition is an involution on index pairs and stays in range *)
+  Theorem pt_sparse_involution : forall m n, m < N -> n < N ->
+    let p := pt_sparse_index dims mask m n in
+    fst p < N /\ snd p < N /\ pt_sparse_index dims mask (fst p) (snd p) = (m, n).
+  Proof.
+    intros m n Hm Hn p.
+    pose proof (digits_valid dims m Hpos Hm) as VA. pose proof (digits_valid dims n Hpos Hn) as VB.
+    pose proof (valid_length _ _ VA) as LA. pose proof (valid_length _ _ VB) as LB.
+    pose proof (valid_choose mask dims _ _ VA VB Hlen) as V1.
+    pose proof (valid_choose mask dims _ _ VB VA Hlen) as V2.
+    unfold p, pt_sparse_index. simpl fst. simpl snd.
+    split; [apply undigits_lt; exact V1|]. split; [apply undigits_lt; exact V2|].
+    rewrite !digits_undigits by assumption.
+    destruct (choose_involutive mask (digits dims m) (digits dims n)) as [E1 E2]; try congruence.
+    rewrite E1, E2. rewrite !undigits_digits by assumption. reflexivity.
+  Qed.
+
+  (* digit k of the new row index is digit k of the old column index where
+     the mask is set and of the old row index elsewhere (and symmetrically) *)
+  Theorem pt_sparse_digits : forall m n, m < N -> n < N ->
+    digits dims (fst (pt_sparse_index dims mask m n)) = choose mask (digits dims m) (digits dims n) /\
+    digits dims (snd (pt_sparse_index dims mask m n)) = choose mask (digits dims n) (digits dims m).
+  Proof.
+    intros m n Hm Hn.
+    pose proof (digits_valid dims m Hpos Hm) as VA. pose proof (digits_valid dims n Hpos Hn) as VB.
+    unfold pt_sparse_index. simpl. split; apply digits_undigits; apply valid_choose; assumption.
+  Qed.
+
+  Variable C : Type.
+  Variable c0 : C.
+  Variable cadd : C -> C -> C.
+
+  (* action on the entries *)
+  Theorem pt_entries_law : forall E i j, in_range C N E -> i < N -> j < N ->
+    den C c0 cadd (pt_entries_sparse C dims mask E)
+        (fst (pt_sparse_index dims mask i j)) (snd (pt_sparse_index dims mask i j))
+    = den C c0 cadd E i j.
+  Proof.
+    intros E i j HE Hi Hj. induction HE as [|[[r c] v] E [Hr Hc] _ IH]; [reflexivity|].
+    simpl in Hr, Hc. cbn [pt_entries_sparse map C09.den]. fold (pt_entries_sparse C dims mask E).
+    rewrite IH.
+    assert (Q : ((fst (pt_sparse_index dims mask r c) =? fst (pt_sparse_index dims mask i j))
+                 && (snd (pt_sparse_index dims mask r c) =? snd (pt_sparse_index dims mask i j)))
+                = ((r =? i) && (c =? j))).
+    { assert (Inj : fst (pt_sparse_index dims mask r c) = fst (pt_sparse_index dims mask i j) ->
+                    snd (pt_sparse_index dims mask r c) = snd (pt_sparse_index dims mask i j) ->
+                    r = i /\ c = j).
+      { intros F1 F2.
+        destruct (pt_sparse_involution r c Hr Hc) as (_ & _ & I1).
+        destruct (pt_sparse_involution i j Hi Hj) as (_ & _ & I2).
+        rewrite F1, F2 in I1. rewrite I1 in I2. injection I2 as X Y. split; assumption. }
+      destruct (Nat.eqb_spec (fst (pt_sparse_index dims mask r c))
+                             (fst (pt_sparse_index dims mask i j))) as [F1|F1];
+        destruct (Nat.eqb_spec (snd (pt_sparse_index dims mask r c))
+                               (snd (pt_sparse_index dims mask i j))) as [F2|F2]; simpl.
+      - destruct (Inj F1 F2) as [X Y]. rewrite X, Y, !Nat.eqb_refl. reflexivity.
+      - symmetry. apply andb_false_iff.
+        destruct (Nat.eqb_spec r i) as [X|X]; [|left; reflexivity].
+        destruct (Nat.eqb_spec c j) as [Y|Y]; [|right; reflexivity].
+        exfalso. apply F2. rewrite X, Y. reflexivity.
+      - symmetry. apply andb_false_iff.
+        destruct (Nat.eqb_spec r i) as [X|X]; [|left; reflexivity].
+        destruct (Nat.eqb_spec c j) as [Y|Y]; [|right; reflexivity].
+        exfalso. apply F1. rewrite X, Y. reflexivity.
+      - symmetry. apply andb_false_iff.
+        destruct (Nat.eqb_spec r i) as [X|X]; [|left; reflexivity].
+        destruct (Nat.eqb_spec c j) as [Y|Y]; [|right; reflexivity].
+        exfalso. apply F1. rewrite X, Y. reflexivity. }
+    rewrite Q. reflexivity.
+  Qed.
+End PartialTranspose.
